@@ -927,8 +927,10 @@ func (e *Engine) model(st *state, fr *frame, in ssa.CallInstruction, fn *ssa.Fun
 			ord = ""
 		}
 		st2 := st.clone()
-		if st.exhausted[r.Key()] && sz != 0 {
+		if (st.exhausted[r.Key()] || e.cannotSupply(st, r, sz)) && sz != 0 {
 			// an earlier read on this buffer already failed or came back short: nothing is left to read
+			// (or a test in force says fewer bytes are left than this read needs: the slow path behind
+			// `if buf.Len() >= n { fast }`, there to fail with the error the field-by-field reads give)
 			ev2 := e.addEvent(st2, fr, &Event{Kind: EvReadInt, Buf: r, IntType: p.Elem(), Order: ord, Dst: data, Size: mkInt(sz), Failed: true}, in)
 			st2.mem[data.Key()] = memEntry{Addr: data, V: &Val{Op: "unknown", ID: ev2.ID, Name: "failed-read", Type: p.Elem()}}
 			return []callRes{{st: st2, val: nonnil(fmt.Sprintf("binary.Read#%d", ev2.ID))}}, true
@@ -949,7 +951,7 @@ func (e *Engine) model(st *state, fr *frame, in ssa.CallInstruction, fn *ssa.Fun
 		}
 		n := mkLen(b)
 		st2 := st.clone()
-		if z, isC := n.Int64(); st.exhausted[r.Key()] && !(isC && z == 0) {
+		if z, isC := n.Int64(); (st.exhausted[r.Key()] || (isC && e.cannotSupply(st, r, z))) && !(isC && z == 0) {
 			ev2 := e.addEvent(st2, fr, &Event{Kind: EvReadBytes, Mode: "ReadFull", Buf: r, Dst: b, Size: n, Failed: true}, in)
 			e.setContent(st2, b, &Val{Op: "unknown", ID: ev2.ID, Name: "partial-read", Type: b.Type})
 			return []callRes{{st: st2, val: tuple(&Val{Op: "short", ID: ev2.ID, Args: []*Val{n}, Type: intT}, nonnil(fmt.Sprintf("io.ReadFull#%d", ev2.ID)))}}, true
@@ -1205,7 +1207,7 @@ func (e *Engine) model(st *state, fr *frame, in ssa.CallInstruction, fn *ssa.Fun
 	case "(*bytes.Buffer).ReadByte":
 		u8 := types.Typ[types.Uint8]
 		st2 := st.clone()
-		if !st.exhausted[args[0].Key()] {
+		if !st.exhausted[args[0].Key()] && !e.cannotSupply(st, args[0], 1) {
 			ev := e.addEvent(st, fr, &Event{Kind: EvReadInt, Buf: args[0], IntType: u8, Order: "", Size: mkInt(1)}, in)
 			ev2 := e.addEvent(st2, fr, &Event{Kind: EvReadInt, Buf: args[0], IntType: u8, Order: "", Size: mkInt(1), Failed: true}, in)
 			markExhausted(st2, args[0])
@@ -2335,4 +2337,87 @@ func embeddedBuffer(v *Val) *Val {
 		}
 	}
 	return v.Args[idx]
+}
+
+// cannotSupply: a test in force on this path bounds the bytes the buffer held when it was observed, and everything
+// that has happened to the buffer since is successful reads of known sizes – so fewer than size bytes are left and a
+// read of size bytes cannot succeed. (The slow path behind `if buf.Len() >= n { fast path }` exists to fail with the
+// error the field-by-field reads give; it never succeeds.)
+func (e *Engine) cannotSupply(st *state, buf *Val, size int64) bool {
+	if size <= 0 || buf == nil {
+		return false
+	}
+	bkey := stripIface(buf).Key()
+	var evs []*Event
+	for _, c := range st.conds {
+		v := stripCT(c.V)
+		if v == nil || v.Op != "binop" || len(v.Args) != 2 {
+			continue
+		}
+		l, r := stripCT(v.Args[0]), stripCT(v.Args[1])
+		op := v.Name
+		if _, isC := l.Int64(); isC { // N op L  ->  L op' N
+			l, r = r, l
+			op = map[string]string{"<": ">", ">": "<", "<=": ">=", ">=": "<=", "==": "==", "!=": "!="}[op]
+		}
+		n, isC := r.Int64()
+		if !isC || l.Op != "buflen" || len(l.Args) != 1 || stripIface(l.Args[0]) == nil || stripIface(l.Args[0]).Key() != bkey {
+			continue
+		}
+		// greatest number of bytes the observation allows
+		var most int64
+		switch {
+		case op == ">=" && !c.Taken, op == "<" && c.Taken:
+			most = n - 1
+		case op == ">" && !c.Taken, op == "<=" && c.Taken, op == "==" && c.Taken, op == "!=" && !c.Taken:
+			most = n
+		default:
+			continue
+		}
+		if evs == nil {
+			evs = st.allEvents()
+		}
+		at := -1
+		for i, ev := range evs {
+			if ev.Kind == EvLen && ev.ID == l.ID {
+				at = i
+			}
+		}
+		if at < 0 {
+			continue
+		}
+		used, ok := int64(0), true
+		for _, ev := range evs[at+1:] {
+			touches := false
+			walkEvents([]*Event{ev}, func(x *Event, _ int) {
+				if x.Buf != nil && stripIface(x.Buf) != nil && stripIface(x.Buf).Key() == bkey {
+					touches = true
+				}
+			})
+			if !touches {
+				if ev.Kind == EvObj || ev.Kind == EvCall || ev.Kind == EvCalc {
+					ok = false // something not looked into may have used the buffer
+				}
+				continue
+			}
+			switch ev.Kind {
+			case EvLen, EvBytes:
+			case EvReadInt, EvReadBytes:
+				k, isK := affOf(ev.Size).IsConst()
+				if ev.Failed || !isK || k < 0 {
+					ok = false
+				}
+				used += k
+			default:
+				ok = false
+			}
+			if !ok {
+				break
+			}
+		}
+		if ok && most-used < size {
+			return true
+		}
+	}
+	return false
 }
